@@ -240,6 +240,14 @@ func generate(rng *rand.Rand, tier string) []interface{} {
 		}
 		ins = append(ins, input{Kind: "real", TCP: tcp, NP: np, NH: nh, HSend: (i / 2) % 3, Ops: genOps(rng, np, nh, n, false, tcp)})
 	}
+	nFlood := 1
+	if tier != "quick" {
+		nFlood = 12
+	}
+	for i := 0; i < nFlood; i++ {
+		k := []int{20 + rng.Intn(170), 230 + rng.Intn(150), 430 + rng.Intn(70)}[rng.Intn(3)]
+		ins = append(ins, input{Kind: "localflood", NP: k})
+	}
 	ins = append(ins, genEntry(rng, tier)...)
 	ins = append(ins, genCluster(rng, tier)...)
 	return filterKinds(ins)
@@ -341,6 +349,9 @@ func corpus() []interface{} {
 	ins = append(ins,
 		input{Kind: "config", TCP: false, Warm: true}, input{Kind: "config", TCP: true, Warm: true},
 		input{Kind: "config", TCP: true, Warm: false})
+	// in-memory transport under back-pressure (C09-N3): the queues of the victim's connection are
+	// full when it is stopped (np = messages sent; the thresholds are 202 and 403)
+	ins = append(ins, input{Kind: "localflood", NP: 150}, input{Kind: "localflood", NP: 300}, input{Kind: "localflood", NP: 450})
 	ins = append(ins, corpusCluster()...)
 	return filterKinds(ins)
 }
